@@ -66,16 +66,34 @@ fn run_script<const N: usize>(kind: CipherKind, f: &[&str]) -> Vec<String> {
     let mut buf = BytesMut::new();
     let mut out = Vec::new();
     let mut dead = false;
+    let mut cur: usize = 0;
+    let mut parked: Vec<(usize, AEADCipherCodec<N>, Session<N>, BytesMut, bool)> = Vec::new();
     for op in f[9].split(';') {
         if op.is_empty() {
             continue;
         }
-        if dead && op != "N" {
+        if dead && op != "N" && !op.starts_with('S') {
             out.push("SKIP".to_string());
             continue;
         }
         let (c, arg) = op.split_at(1);
         match c {
+            "S" => {
+                // switch to connection <k> of the same context (created on first use): interleaved connections
+                let k: usize = arg.parse().unwrap();
+                parked.push((cur, std::mem::replace(&mut codec, AEADCipherCodec::<N>::default()), std::mem::replace(&mut session, new_conn().1), std::mem::take(&mut buf), dead));
+                if let Some(pos) = parked.iter().position(|p| p.0 == k) {
+                    let p = parked.remove(pos);
+                    codec = p.1;
+                    session = p.2;
+                    buf = p.3;
+                    dead = p.4;
+                } else {
+                    dead = false;
+                }
+                cur = k;
+                out.push(format!("CONN{}", k));
+            }
             "N" => {
                 let (c2, s2) = new_conn();
                 codec = c2;
@@ -284,6 +302,17 @@ pub fn generate(w: &mut dyn Write, seed: u64, thorough: bool) {
                 // replay of the same request on a new connection (same context)
                 let sargs: Vec<String> = vec!["sstcp".into(), kname.into(), hex(&key), "-".into(), users_s.clone(), "server".into(), hex(&ssalt), "-".into(), now.to_string(), format!("D{};N;D{};N;D{}", hex(&req), hex(&req), hex(&req[..req.len().min(head + 40)]))];
                 crate::emit_case(w, &sargs, exec);
+                // replay across INTERLEAVED connections: connection 0 receives the request up to a cut (header complete, first
+                // payload not), connection 1 receives the whole request, then connection 0 receives the rest
+                if is22 {
+                    for cut in [head, head + 1, head + 5, req.len() - 1] {
+                        if cut < req.len() {
+                            let ops = format!("S0;D{};S1;D{};S0;D{};S2;D{}", hex(&req[..cut]), hex(&req), hex(&req[cut..]), hex(&req));
+                            let sargs: Vec<String> = vec!["sstcp".into(), kname.into(), hex(&key), "-".into(), users_s.clone(), "server".into(), hex(&ssalt), "-".into(), now.to_string(), ops];
+                            crate::emit_case(w, &sargs, exec);
+                        }
+                    }
+                }
                 // 3. client decodes the response under segmentations (after having encoded its request)
                 if !resp_wire.is_empty() {
                     let rhead = n + if is22 { 11 + n + 16 } else { 0 };
@@ -315,6 +344,39 @@ pub fn generate(w: &mut dyn Write, seed: u64, thorough: bool) {
                         let mut m = req.clone();
                         m[bit / 8] ^= 1 << (bit % 8);
                         let sargs: Vec<String> = vec!["sstcp".into(), kname.into(), hex(&key), "-".into(), users_s.clone(), "server".into(), hex(&ssalt), "-".into(), now.to_string(), format!("D{}", hex(&m)), format!("@p={}", hex(&writes.concat()))];
+                        crate::emit_case(w, &sargs, exec);
+                    }
+                }
+            }
+            // 4b. tiny chunks: writes of 1, 1, 2, 3, 15, 16, 17, 18, 19 and 1 bytes (around the tag and size-field lengths);
+            //     every two-cut of the whole stream and byte-by-byte delivery: a chunk shorter than a length field must be
+            //     delivered as soon as its last byte has arrived
+            if users.is_none() || thorough {
+                let tiny: Vec<Vec<u8>> = [1usize, 1, 2, 3, 15, 16, 17, 18, 19, 1].iter().map(|&l| rng.bytes(l)).collect();
+                let csalt = rng.bytes(n);
+                let (ckey, cikeys) = match users {
+                    Some(us) => (us.last().unwrap().clone(), hex(&key)),
+                    None => (key.clone(), "-".to_string()),
+                };
+                let eops: Vec<String> = tiny.iter().map(|x| format!("E{}", hex(x))).collect();
+                let cargs: Vec<String> = vec!["sstcp".into(), kname.into(), hex(&ckey), cikeys.clone(), "none".into(), "client".into(), hex(&csalt), "4:7f000001:80".into(), now.to_string(), eops.join(";")];
+                let cf: Vec<&str> = cargs.iter().map(|s| s.as_str()).collect();
+                let r = exec(&cf);
+                crate::emit_case(w, &cargs, exec);
+                let parts: Vec<Vec<u8>> = r[0].split(" | ").filter_map(|x| x.strip_prefix("OK ")).map(unhex).collect();
+                if parts.len() == tiny.len() {
+                    let req: Vec<u8> = parts.concat();
+                    let head = n + if users.is_some() { 16 } else { 0 } + if is22 { 27 } else { 0 };
+                    let expect = format!("@x={}", hex(&tiny.concat()));
+                    let mut cuts: Vec<Vec<Vec<u8>>> = (1..req.len()).map(|c| vec![req[..c].to_vec(), req[c..].to_vec()]).collect();
+                    cuts.push(req.iter().map(|b| vec![*b]).collect());
+                    // the stream also as: first write whole, then byte by byte
+                    let mut fb = vec![req[..parts[0].len()].to_vec()];
+                    fb.extend(req[parts[0].len()..].iter().map(|b| vec![*b]));
+                    cuts.push(fb);
+                    for segs in cuts {
+                        let meta = if !is22 || segs[0].len() >= head { expect.clone() } else { "@-".to_string() };
+                        let sargs: Vec<String> = vec!["sstcp".into(), kname.into(), hex(&key), "-".into(), users_s.clone(), "server".into(), hex(&rng.bytes(n)), "-".into(), now.to_string(), ops_d(&segs), meta];
                         crate::emit_case(w, &sargs, exec);
                     }
                 }
